@@ -168,7 +168,21 @@ class Printer:
         out.append('%s:' % f)
       else:
         out.append('%s: %s' % (f, self.expr(x, True)))
-    return ', '.join(out)
+    return ', '.join(self.shuffle_named(out))
+
+  def shuffle_named(self, parts):
+    """option named_order_rng: named arguments (`f: e`, `f? Op= e`) are written in a random order, after the
+    positional ones (their order is part of the meaning)"""
+    rng = self.opt.get('named_order_rng')
+    if rng is None:
+      return parts
+    import re as _re
+    named = [p for p in parts if _re.match(r'^[a-z_][A-Za-z_0-9]*(\?|:)', p)]
+    if len(named) < 2:
+      return parts
+    pos = [p for p in parts if p not in named]
+    rng.shuffle(named)
+    return pos + named
 
   def prop(self, p, top=False):
     s = self._prop(p, top)
@@ -231,7 +245,12 @@ class Printer:
         plain.append('logica_value? %s= %s' % (value['aggop'], self.expr(value['e'], True)))
       else:
         plain.append('logica_value: %s' % self.expr(value, True))
-    head = '%s(%s)' % (r['head'], ', '.join(plain))
+    if (r.get('distinct') or any(isinstance(x, dict) and 'aggop' in x for _, x in r['args'])) and not self.opt.get('named_order_distinct'):
+      # the rules of an aggregating predicate must spell their arguments in one order ("Signature differs" otherwise,
+      # a documented restriction of multi-body aggregation): left as written
+      head = '%s(%s)' % (r['head'], ', '.join(plain))
+    else:
+      head = '%s(%s)' % (r['head'], ', '.join(self.shuffle_named(plain)))
     if value is not None and not self.opt.get('explicit_value'):
       if valagg:
         op = value['aggop']
